@@ -2,6 +2,7 @@
     The reference model is Spec.v (the harness compares every API result of the implementation with it).
     The theorems below state that the reference really is a map with the promised error behaviour. *)
 From Bbolt Require Import Base Consts Spec SpecProofs SpecBucketProofs.
+From Bbolt Require Node NodeProofs.
 
 (** Argument and type errors (and every other error) leave the state unchanged. *)
 Theorem C04_errors_change_nothing : forall w o root e out root',
@@ -120,3 +121,68 @@ Print Assumptions C04_delete_frame.
 Theorem C04_ordered_everywhere : forall root p, wf_bucket root -> sorted_at p root.
 Proof. exact wf_sorted_at. Qed.
 Print Assumptions C04_ordered_everywhere.
+
+Module NodeLayer.
+Import Node NodeProofs.
+
+(** ---- the B+tree node layer (Node.v: line-for-line model of node.go, compared call by call with the real node) ---- *)
+
+(** Go's sort.Search bisection finds, on a sorted node, the number of keys below the sought one (the insertion point) *)
+Theorem C04_node_search_is_insertion_point : forall l k, keys_sorted (keys_of l) = true ->
+  search (length l) (key_ge l k) = length (filter (fun i => blt (i_key i) k) l).
+Proof. exact search_sorted. Qed.
+Print Assumptions C04_node_search_is_insertion_point.
+
+(** node.put on a sorted node is insert-or-replace of a sorted map ... *)
+Theorem C04_node_put_is_insert : forall mark n k v pg fl,
+  keys_sorted (keys_of (n_inodes n)) = true -> pg < mark -> len k <> 0 ->
+  put mark n k k v pg fl =
+  Ok {| n_leaf := n_leaf n; n_unbal := n_unbal n;
+        n_inodes := ins {| i_flags := fl; i_key := k; i_val := v; i_pgid := pg |} (n_inodes n) |}.
+Proof. exact put_is_insert. Qed.
+Print Assumptions C04_node_put_is_insert.
+
+(** ... which keeps the node sorted, makes the key readable and leaves every other key alone *)
+Theorem C04_node_insert_laws : forall ni l,
+  (keys_sorted (keys_of l) = true -> keys_sorted (keys_of (ins ni l)) = true) /\
+  ilookup (i_key ni) (ins ni l) = Some ni /\
+  (forall k', k' <> i_key ni -> ilookup k' (ins ni l) = ilookup k' l).
+Proof. intros ni l. split; [exact (ins_sorted ni l) | split; [exact (ins_lookup_same ni l) | exact (ins_lookup_other ni l)]]. Qed.
+Print Assumptions C04_node_insert_laws.
+
+(** node.del on a sorted node removes exactly that key, keeps the node sorted, and marks it for rebalancing iff the key was there *)
+Theorem C04_node_del_is_remove : forall n k, keys_sorted (keys_of (n_inodes n)) = true ->
+  n_inodes (del n k) = rem k (n_inodes n) /\
+  keys_sorted (keys_of (rem k (n_inodes n))) = true /\
+  ilookup k (rem k (n_inodes n)) = None /\
+  (forall k', k' <> k -> ilookup k' (rem k (n_inodes n)) = ilookup k' (n_inodes n)) /\
+  n_unbal (del n k) = n_unbal n || existsb (fun i => beq (i_key i) k) (n_inodes n).
+Proof.
+  intros n k H. split; [exact (del_is_remove n k H) | split; [exact (rem_sorted k _ H) | split; [exact (rem_lookup_same k _ H) |
+  split; [exact (fun k' => rem_lookup_other k k' _ H) | exact (del_unbalanced_iff n k H)]]]].
+Qed.
+Print Assumptions C04_node_del_is_remove.
+
+(** node.split, for every node, page size and fill percentage: it terminates, loses and reorders nothing, produces no empty piece,
+    and every piece but the last has at least MinKeysPerPage elements; a node that fits in a page is not split *)
+Theorem C04_node_split_keeps_every_element : forall n ps p,
+  exists pieces, split n ps p = Ok pieces /\ concat pieces = n_inodes n /\
+    (n_inodes n <> [] -> Forall (fun q => q <> []) pieces) /\
+    Forall (fun q => 2 <= length q)%nat (removelast pieces) /\
+    (size n < ps -> pieces = [n_inodes n]).
+Proof.
+  intros n ps p. destruct (split_total n ps p) as [pieces H]. exists pieces.
+  split; [exact H | split; [exact (split_concat n ps p pieces H) | split; [exact (split_nonempty n ps p pieces H) |
+  split; [exact (split_nonlast_ge2 n ps p pieces H) | ]]]].
+  intros Hs. rewrite (split_fits n ps p Hs) in H. injection H as <-. reflexivity.
+Qed.
+Print Assumptions C04_node_split_keeps_every_element.
+
+(** the decision procedure the harness runs on the implementation's own split results means what it says *)
+Theorem C04_split_ok_sound : forall l pieces, split_ok l pieces = true ->
+  concat (map keys_of pieces) = keys_of l /\ (l <> [] -> Forall (fun q => q <> []) pieces) /\
+  Forall (fun q => 2 <= length q)%nat (removelast pieces).
+Proof. exact split_ok_sound. Qed.
+Print Assumptions C04_split_ok_sound.
+
+End NodeLayer.
